@@ -335,6 +335,23 @@ func (env *Zlisp) captureControlState() vmControlState {
 	}
 }
 
+// checkDataStackFloor reports an error when a nested evaluation that has
+// delivered its result left the data stack below the depth it started at:
+// a form that generates no value was used where a value is needed, and the
+// values consumed in its place belong to the caller.
+func (env *Zlisp) checkDataStackFloor(state vmControlState, what Sexp) error {
+	if env.datastack.Size() < state.datastackSize {
+		descr := ""
+		if what != nil {
+			descr = " of " + what.SexpString(nil)
+		}
+		return fmt.Errorf("evaluation%s consumed %d value(s) of its caller: "+
+			"a form that yields no value was used where a value is needed",
+			descr, state.datastackSize-env.datastack.Size())
+	}
+	return nil
+}
+
 func (env *Zlisp) restoreControlState(state vmControlState) {
 	env.addrstack.TruncateToSize(state.addrstackSize)
 	env.linearstack = state.linearstack
@@ -405,6 +422,9 @@ func (env *Zlisp) EvalCallExpression(expr Sexp) (Sexp, error) {
 		return SexpNull, err
 	}
 	res, err := env.Run()
+	if err == nil {
+		err = env.checkDataStackFloor(callState, expr)
+	}
 	if err != nil {
 		env.restoreControlState(callState)
 		return SexpNull, err
@@ -943,6 +963,9 @@ func (env *Zlisp) Apply(fun *SexpFunction, args []Sexp) (Sexp, error) {
 	}
 
 	res, err := env.Run()
+	if err == nil {
+		err = env.checkDataStackFloor(callState, nil)
+	}
 	if err != nil {
 		env.restoreControlState(callState)
 		return SexpNull, err
